@@ -84,7 +84,14 @@ func StyleAttr(r *rand.Rand, known []StyleDecl, clean bool) string {
 		case 2:
 			prop = mixCase(r, prop)
 		}
-		switch r.Intn(10) {
+		switch r.Intn(11) {
+		case 10:
+			// decoder probe: the last character written as an escape, one terminator, then one junk
+			// character. A browser reads VALUE+junk; a decoder that eats one character too many reads VALUE.
+			if n := len(val); n > 0 && val[n-1] >= 'a' && val[n-1] <= 'z' {
+				term := []string{" ", "\t", "\n", "\f", "\r\n", "\r", "\r\n\n", "  ", " \t"}[r.Intn(9)]
+				val = fmt.Sprintf("%s\\%x%s%s", val[:n-1], val[n-1], term, Pick(r, []string{"x", "9", "-", "z"}))
+			}
 		case 0:
 			val = strings.ToUpper(val)
 		case 1, 2:
